@@ -145,13 +145,16 @@ class Pools:
             out.append(f)
         return out
 
-    def same_dimension_alternative(self, rng, factors, compose_prob=0.3, prefix_prob=0.4):
+    def same_dimension_alternative(self, rng, factors, compose_prob=0.3, prefix_prob=0.4, keep_dimensionless_choice=False):
         """Replace every factor by another offset-free unit of the same dimension, or by a
         composition of units of the fundamental dimensions."""
         out = []
         for pfx, name, exp in factors:
             u = self.units[name]
             d = self.mdl.dim_of_unit(u)
+            if d == self.number_dim and not keep_dimensionless_choice:
+                out.append((pfx, name, exp))  # 'one' and angle units are not interchangeable by any declaration
+                continue
             pool = getattr(self, "by_dim_moderate", self.by_dim).get(d, [])
             if d != self.number_dim and (rng.random() < compose_prob or len(pool) < 2):
                 comp = []
@@ -179,10 +182,12 @@ class Pools:
         merged = {}
         for pfx, name, exp in out:
             merged[(pfx, name)] = merged.get((pfx, name), 0) + exp
-        result = [(p, n, e) for (p, n), e in merged.items() if e != 0] or [(None, "one", 1)]
+        result = [(p, n, e) for (p, n), e in merged.items() if e != 0]
+        if not result:
+            return list(factors)  # everything cancelled: keep the expression as it was written
         if len(result) > 4 or any(abs(e) > 3 for _, _, e in result):
             # too wide for the stated space (and for the float range): plain one-for-one replacement
-            return self.same_dimension_alternative(rng, factors, compose_prob=0.0, prefix_prob=prefix_prob) if compose_prob else result
+            return self.same_dimension_alternative(rng, factors, compose_prob=0.0, prefix_prob=prefix_prob, keep_dimensionless_choice=keep_dimensionless_choice) if compose_prob else result
         return result
 
     def shape_class(self, factors):
